@@ -99,7 +99,7 @@ def repo_hash():
                 with open(p, "rb") as f:
                     h.update(f.read())
     for fn in ("spec/Simulator.tla", "spec/SimTrace.tla", "spec/LedgerOps.tla", "harness/simrun.py", "harness/worlds.py",
-               "harness/simcheck.py", "harness/hostile.py", "harness/simprops.py"):
+               "harness/simcheck.py", "harness/hostile.py", "harness/simprops.py", "harness/simmc.py", "spec/SimMC.tla"):
         with open(os.path.join(VERIF, fn), "rb") as f:
             h.update(f.read())
     return h.hexdigest()[:16]
@@ -137,6 +137,12 @@ def make_worlds(tier):
     for i in range(n_cw):
         w = worlds.gen_clockwork_world(rnd)
         w["class"] = "clockwork"
+        ws.append(w)
+    # leg R: decision scripts taken from TLC-simulated behaviours of SimMC, played into the real Simulator
+    from . import simmc
+
+    for w in simmc.script_worlds(tier, seed()):
+        w["class"] = "mc_script"
         ws.append(w)
     # the optimisation-based planners inside simulate() (future placements, explicit workers, plan-ahead)
     n_plan = 12 if tier == "quick" else 600
@@ -288,7 +294,7 @@ def check(pid: str, tier: str, res: CheckResult | None = None) -> CheckResult:
                     )
     res.extra["sim_corpus"] = {
         "worlds": len(c["worlds"]),
-        "by_class": {k: sum(1 for w in c["worlds"] if w["class"] == k) for k in ("directed", "finding", "random", "feasible", "preemptive", "clockwork", "planner")},
+        "by_class": {k: sum(1 for w in c["worlds"] if w["class"] == k) for k in ("directed", "finding", "random", "feasible", "preemptive", "clockwork", "mc_script", "planner")},
         "by_policy": {k: sum(1 for w in c["worlds"] if w["kind"] == k) for k in sorted({w["kind"] for w in c["worlds"] if w["kind"]})},
         "records_validated": c["stats"]["records"],
         "event_and_row_counts": c["counts"],
